@@ -244,6 +244,18 @@ func checkC05() fw.Check {
 					}
 				}
 			}
+			for i, proto := range []string{"icmp", "udp", "tcp"} {
+				// replies slower than the spacing of the end-to-end probes: a reply to probe k arrives while probe k+1 is outstanding
+				rq := c15Req{proto: proto, q: 1, e: 8, fetcher: "none", delayPerm: i, reach: true, cancelAt: -1, slowDest: 500 * time.Millisecond}
+				id := fmt.Sprintf("C05/e2e-overlap/%s", proto)
+				cases = append(cases, fw.Case{ID: id, Bubble: true, Run: func(c *fw.Ctx) { runC15Case(c, id, rq); c.Nontrivial("e2e-overlap/" + rq.proto) }})
+			}
+			for _, fwTTL := range []int{2, 3, 5} {
+				// a firewall on the path rejects the probes (destination-unreachable), the destination stays silent: no end-to-end answer
+				rq := c15Req{proto: "udp", q: 1, e: 3, fetcher: "none", reach: true, cancelAt: -1, firewall: fwTTL}
+				id := fmt.Sprintf("C05/e2e-firewall/ttl%d", fwTTL)
+				cases = append(cases, fw.Case{ID: id, Bubble: true, Run: func(c *fw.Ctx) { runC15Case(c, id, rq); c.Nontrivial(fmt.Sprintf("e2e-firewall/%d", rq.firewall)) }})
+			}
 			for _, v := range refmatch.Variants {
 				for _, scale := range []string{"prod", "discr"} {
 					for _, w := range wins {
